@@ -436,6 +436,10 @@ def _short(t, n=90):
                 return f"{x[1]} {{…}}"
             if x[0] == "closure":
                 return "|…| …"
+            if x[0] == "node":
+                return f"<node {x[1][0]}>"
+            if not isinstance(x[0], str):
+                return "(" + ", ".join(go(a) for a in x) + ")"
             return x[0] + "(" + ", ".join(go(a) for a in x[1:] if isinstance(a, (tuple, list))) + ")"
         if isinstance(x, list):
             return "[" + ", ".join(go(a) for a in x) + "]"
